@@ -37,9 +37,9 @@ B = 'BTC-USDT'
 T0 = 1609459200000
 
 
-def fa_cfg(maxlen, export):
-    return ("SPECIFICATION Spec\nCHECK_DEADLOCK FALSE\nCONSTANTS MaxLen = %d Starts = {3} Export = %s\n"
-            "INVARIANT FillIsGaplessAndFaithful\n" % (maxlen, "TRUE" if export else "FALSE"))
+def fa_cfg(maxlen, export, truthy=False):
+    return ("SPECIFICATION Spec\nCHECK_DEADLOCK FALSE\nCONSTANTS MaxLen = %d Starts = {3} Export = %s QTruthy = %s\n"
+            "INVARIANT FillIsGaplessAndFaithful\n" % (maxlen, "TRUE" if export else "FALSE", "TRUE" if truthy else "FALSE"))
 
 
 def ac_cfg(lb, prefill, depth, maxlen, multi, q, export):
@@ -51,14 +51,22 @@ def ac_cfg(lb, prefill, depth, maxlen, multi, q, export):
 
 
 # ------------------------------------------------------------------ real code drivers
-def real_fill(given, start, end):
-    """given: list of 7-tuples (minute ts, o, c, h, l, v, id); returns event for TraceCandleSeries"""
+def real_fill(given, start, end, unit=1.0, negzero=False, ints=False):
+    """given: list of 7-tuples (minute ts, o, c, h, l, v, id) in integer price units; the real candles carry
+    value * unit (unit = 2**-40 makes every non-zero price a tiny positive float; zeros stay exactly 0 - or -0.0 with
+    negzero, or the int 0 with ints).  Returns the event for TraceCandleSeries (prices back in units, exact)."""
     from jesse.modes.import_candles_mode import _fill_absent_candles
+
+    def val(n):
+        if n == 0:
+            return 0 if ints else (-0.0 if negzero else 0.0)
+        return (n if ints and unit == 1.0 else n * unit)
     tmp = [{'id': g[6], 'exchange': 'Sandbox', 'symbol': B, 'timeframe': '1m', 'timestamp': T0 + g[0] * 60000,
-            'open': float(g[1]), 'close': float(g[2]), 'high': float(g[3]), 'low': float(g[4]), 'volume': float(g[5])}
+            'open': val(g[1]), 'close': val(g[2]), 'high': val(g[3]), 'low': val(g[4]), 'volume': float(g[5])}
            for g in given]
     snapshot = [dict(d) for d in tmp]
-    e = dict(k='fill', start=start, end=end, given=[list(g) for g in given], ok=True, exc='none', out=[])
+    e = dict(k='fill', start=start, end=end, given=[list(g) for g in given], ok=True, exc='none', out=[],
+             unit_log2=int(__import__('math').log2(unit)), negzero=bool(negzero), ints=bool(ints))
     try:
         out = _fill_absent_candles(tmp, T0 + start * 60000, T0 + end * 60000)
     except Exception as ex:
@@ -73,8 +81,9 @@ def real_fill(given, start, end):
         if ts % 60000:
             rows.append([-1, 0, 0, 0, 0, 0, 0])
             continue
-        vals = [c['open'], c['close'], c['high'], c['low'], c['volume']]
-        if any(float(v) != int(v) for v in vals):
+        vals = [float(c['open']) / unit, float(c['close']) / unit, float(c['high']) / unit, float(c['low']) / unit,
+                float(c['volume'])]                     # unit is a power of two: the division is exact
+        if any(v != int(v) for v in vals):
             rows.append([ts // 60000, -1, -1, -1, -1, -1, 0])
             continue
         rows.append([ts // 60000] + [int(v) for v in vals] + [c['id'] if isinstance(c['id'], int) else 0])
@@ -186,21 +195,32 @@ def run(ctx):
     traces, samples = [], []
     tid = 0
     # ------------------------------------------------------------ M + pattern export: gap filling
-    maxlen = ctx.pick(7, 9)
-    r = tlc.run("FillAbsentMC", cfg_text=fa_cfg(maxlen, True), workers=1, coverage=True, timeout=900)
-    ctx.add_tlc(r, "FillAbsentMC MaxLen=%d" % maxlen)
+    maxlen = ctx.pick(7, 8)
+    r, rdev = tlc.run_parallel([
+        dict(module="FillAbsentMC", cfg_text=fa_cfg(maxlen, True), workers=1, coverage=True, timeout=900),
+        dict(module="FillAbsentMC", cfg_text=fa_cfg(maxlen, False, truthy=True), workers=1, timeout=900)])
+    ctx.add_tlc(r, "FillAbsentMC MaxLen=%d (presence patterns x close=0 subsets x first open 0 x flat market)" % maxlen)
     if r.violation:
         raise Machinery("FillAbsentMC violates %s\n%s" % (r.violation["name"], r.violation["trace"][:2000]))
+    if not rdev.violation:
+        raise Machinery("the truthiness deviation (last_close or first_open) does not show in FillAbsentMC")
+    ctx.coverage["fill_model_deviation_truthy_close"] = {"violated": rdev.violation["name"]}
     pats = [json.loads(p[1]) for p in tlc.tagged(r, "PATTERN")]
     if len(pats) != r.distinct // 2:
         ctx.notes.append("pattern export: %d patterns vs %d distinct states" % (len(pats), r.distinct))
     ev = []
-    for p in pats:
-        ev.append(real_fill([tuple(g) for g in p["given"]], p["start"], p["end"]))
+    nz = 0
+    for j, p in enumerate(pats):
+        given = [tuple(g) for g in p["given"]]
+        haszero = any(g[2] == 0 or g[1] == 0 for g in given)
+        nz += haszero
+        # zeros as 0.0 / -0.0 / int 0; every 3rd case with tiny positive prices (unit 2^-40)
+        ev.append(real_fill(given, p["start"], p["end"], unit=(2.0 ** -40 if j % 3 == 2 else 1.0),
+                            negzero=(j % 4 == 1), ints=(j % 4 == 3 and j % 3 != 2)))
         n = p["end"] - p["start"] + 1
         inside = [g for g in p["given"] if g[0] <= p["end"]]
         if 0 < len(inside) < n:
-            ctx.nontrivial.add(("fill", p["start"], p["end"], tuple(g[0] for g in p["given"])))
+            ctx.nontrivial.add(("fill", p["start"], p["end"], tuple((g[0], g[1], g[2]) for g in p["given"])))
     tid += 1
     traces.append({"id": tid, "hdr": {"src": "R-fill", "tf": "1m", "init": []}, "ev": ev})
     samples.append({"kind": "R: TLC pattern through the real _fill_absent_candles", "event": ev[len(ev) // 2]})
@@ -227,15 +247,23 @@ def run(ctx):
         else:
             p = rng.choice([0.1, 0.5, 0.9])
             pres = {m for m in range(n) if rng.random() < p} or {rng.randrange(n)}
-        given, price = [], rng.randint(50, 500)
+        vstyle = c % 5           # value corner cases: ordinary / closes hitting 0 / first open 0 / equal prices / tiny
+        given, price = [], (rng.randint(50, 500) if vstyle in (0, 4) else rng.randint(1, 6))
         for m in sorted(pres):
-            o = price + rng.randint(-3, 3)
-            cl = o + rng.randint(-3, 3)
-            given.append((start + m, o, cl, max(o, cl) + rng.randint(0, 2), min(o, cl) - rng.randint(0, 2), rng.randint(0, 90), len(given) + 1))
-            price = cl
+            o = price + (rng.randint(-3, 3) if vstyle != 3 else 0)
+            cl = o + (rng.randint(-3, 3) if vstyle != 3 else 0)
+            if vstyle == 1 and rng.random() < 0.4:
+                cl = 0
+            if vstyle == 2 and not given:
+                o = 0
+            o, cl = max(o, 0), max(cl, 0)
+            given.append((start + m, o, cl, max(o, cl) + (rng.randint(0, 2) if vstyle != 3 else 0),
+                          max(min(o, cl) - (rng.randint(0, 2) if vstyle != 3 else 0), 0), rng.randint(0, 90), len(given) + 1))
+            price = cl if cl else rng.randint(1, 6)
         if rng.random() < 0.2:
             given.append((start + n + rng.randint(0, 3), price, price, price, price, 1, len(given) + 1))
-        ev.append(real_fill(given, start, start + n - 1))
+        ev.append(real_fill(given, start, start + n - 1, unit=(2.0 ** -40 if vstyle == 4 else 1.0),
+                            negzero=(c % 7 == 3), ints=(c % 7 == 5 and vstyle != 4)))
         if len(pres) < n:
             ctx.nontrivial.add(("fill-long", c))
     tid += 1
@@ -373,7 +401,8 @@ def run(ctx):
             ctx.violations.append({"sig": sig, "detail": "trace %d event %d" % (o[0], o[1]), "payload": None})
     ctx.evaluations = sum(len(t["ev"]) for t in traces)
     ctx.coverage.update({
-        "traces_validated_against_impl": len(traces), "fill_patterns_from_tlc": n_pat, "fill_patterns_random": n_long,
+        "traces_validated_against_impl": len(traces), "fill_patterns_from_tlc": n_pat,
+        "fill_patterns_with_a_zero_price": nz, "fill_patterns_random": n_long,
         "add_model_transitions": n_edges, "add_transitions_replayed": n_r, "add_random_sequences": n_seq,
         "spacing_cases": len(ev), "spacing_cases_accepted": accepted,
         "trace_events_checked_by_tlc": sum(r.generated for r in results),
@@ -392,7 +421,8 @@ def replay(ctx, rp):
     evs = []
     if src.endswith("fill"):
         for e in p["ev"]:
-            evs.append(real_fill([tuple(g) for g in e["given"]], e["start"], e["end"]))
+            evs.append(real_fill([tuple(g) for g in e["given"]], e["start"], e["end"], unit=2.0 ** e.get("unit_log2", 0),
+                                 negzero=e.get("negzero", False), ints=e.get("ints", False)))
         init = []
     elif src.endswith("add"):
         st = Store(bucket=8)
